@@ -17,6 +17,8 @@ def dimval(name):
 def tens(it, name, shape, origin=None, valkind=None, kind="tensor"):
     o = it.new_tobj(kind, T.sym(name), tuple(shape) if shape is not None else None, origin or ("param:" + name))
     o.valkind = valkind
+    if valkind not in ("str", "bool", "index", "perm"):
+        o.fw = 64  # stated assumption: the data the properties quantify over are float64
     return VTens(o)
 
 
@@ -87,6 +89,10 @@ def run(program, thunk, max_paths=48, sticky=True, stubs=None):
 
     paths = explore(program, thunk, max_paths=max_paths, configure=conf)
     for p in paths:
+        for n_ in getattr(p.interp, "narrowings", []):
+            if (n_[0], n_[1]) not in NARROW_SEEN:
+                NARROW_SEEN.add((n_[0], n_[1]))
+                NARROWINGS.append((n_[0], n_[1], path_tag(p)))
         if p.outcome == "raise" and getattr(p.value, "exc_name", None) in ACCIDENTAL:
             SUSPICIOUS.append((getattr(p.value, "site", ""), p.value.exc_name, getattr(p.value, "msg", ""), path_tag(p), bool(getattr(p.value, "definite_bug", False))))
     return paths
@@ -125,6 +131,8 @@ class DefiniteBug(Exception):
 # core reports them, so that a rule which only looks at the returning paths cannot pass over them.
 ACCIDENTAL = ("IndexError", "KeyError", "AttributeError", "TypeError", "ZeroDivisionError", "UnboundLocalError", "NameError")
 SUSPICIOUS = []
+NARROWINGS = []
+NARROW_SEEN = set()
 
 
 def returning(paths, what=""):
